@@ -29,8 +29,13 @@ def arith(op):
         if name in ('Add', 'Sub', 'Mul'):
             r = m.binop(name + 'WithOverflow', a, b, t)
             res, ov = r.fields
-            if truth(m, ov, 'arith overflow'):
-                raise Panic('attempt to %s with overflow' % {'Add': 'add', 'Sub': 'subtract', 'Mul': 'multiply'}[name])
+            msg = 'attempt to %s with overflow' % {'Add': 'add', 'Sub': 'subtract', 'Mul': 'multiply'}[name]
+            if is_sym(ov):
+                # decided once per path (Ctx.deferred): the overflow predicates of 64-bit products are the
+                # most expensive formulas around, and forking on each of them doubles the solver work
+                m.ctx.deferred.append((ov, msg))
+            elif ov:
+                raise Panic(msg)
             return res
         zero = (b == 0) if not is_sym(b) else (b == z3.BitVecVal(0, w))
         if truth(m, zero, 'div by zero'):
